@@ -21,6 +21,9 @@ ERROR, USAGE, CHANGE, INCOMPAT = 1, 2, 4, 8
 ABIDIFF_OPTS = [[], ['--leaf-changes-only'], ['--stat'], ['--deleted-fns'], ['--added-fns', '--changed-fns'], ['--harmless'], ['--redundant'], ['--no-added-syms'],
                 ['--no-linkage-name', '--no-unreferenced-symbols'], ['--impacted-interfaces'], ['--dump-diff-tree'], ['--no-default-suppression'], ['--drop-private-types'],
                 ['--non-reachable-types'], ['--exported-interfaces-only']]
+SINGLE_OPTS = ['--leaf-changes-only', '--harmless', '--redundant', '--no-added-syms', '--no-linkage-name', '--no-unreferenced-symbols', '--impacted-interfaces',
+               '--no-default-suppression', '--drop-private-types', '--non-reachable-types', '--ignore-soname', '--show-hex', '--no-linux-kernel-mode', '--no-show-locs', '--show-bytes', '--no-corpus-path',
+               '--no-architecture', '--no-show-relative-offset-changes', '--deleted-vars', '--added-vars', '--no-harmful', '--no-redundant']
 BAD_CMDLINES = {
     'abidiff': [['--no-such-option'], [], ['@A@'], ['--suppressions'], ['--suppressions', '/nonexistent/file', '@A@', '@B@'], ['@A@', '/nonexistent/lib.so'], ['/nonexistent/a', '/nonexistent/b'],
                 ['--headers-dir1'], ['--debug-info-dir1', '/nonexistent', '@A@', '@B@'], ['@A@', '@B@', '@A@'], ['--version'], ['--help'], ['--kmi-whitelist', '/nonexistent', '@A@', '@B@'],
@@ -40,7 +43,7 @@ def make_items(ctx, only=None):
     os.makedirs(root, exist_ok=True)
     wls = []
     for i in range(8):
-        wl = K.gen_workload(C.Prng(C.mix_seed(ctx.seed, 8, 7, i)), big=(i == 5))
+        wl = K.gen_workload(C.Prng(C.mix_seed(ctx.seed, 8, 7, i)), big=(i == 5), swarm=True)
         wl['format'] = 'dir' if i % 3 else 'tar'
         d = os.path.join(root, 'w%d' % i)
         os.makedirs(d)
@@ -64,7 +67,7 @@ def make_items(ctx, only=None):
 
 
 def make_plans(ctx, tier, items):
-    n = {'quick': 1500, 'thorough': 15000}[tier]
+    n = {'quick': 2000, 'thorough': 20000}[tier]
     fams = sorted(K.FAMS)
     plans = []
     for i in range(n):
@@ -79,7 +82,15 @@ def make_plans(ctx, tier, items):
         elif tool == 'abidiff':
             fam = rng.choice(fams); vs = K.FAMS[fam]
             p.update(a='%s_v%d' % (fam, rng.choice(vs)), b='%s_v%d' % (fam, rng.choice(vs)), opts=rng.choice(ABIDIFF_OPTS))
-            if r < 55:
+            if rng.chance(1, 2):
+                # binaries without debug info (symbol-only comparison) on one or both sides, and a random subset of single options
+                nd = rng.below(4)
+                if nd in (0, 2, 3):
+                    p['a'] += '_nodbg'
+                if nd in (1, 2, 3):
+                    p['b'] += '_nodbg'
+                p['opts'] = p['opts'] + [o for o in SINGLE_OPTS if rng.chance(1, 6) and o not in p['opts']]
+            if r < 65:
                 p['kind'] = 'pair'
             else:
                 p['kind'] = 'damaged'
